@@ -110,7 +110,12 @@ fn state_level(c: &Case, swap: bool) -> StateRes {
         match st.clone().unify(&la, &lb) {
             Ok(n) => {
                 st = n;
-                prior_ok.push(true)
+                prior_ok.push(true);
+                // a cyclic binding accepted by a prior would make every later walk* (and the
+                // occurs check itself) recurse without bound: detect it on the raw substitution
+                if xs.iter().chain([&la, &lb]).any(|x| safe_resolve(&st, x, 0).is_none()) {
+                    return StateRes { prior_ok, ok: true, cyclic: true, sides_equal: false, image: vec![] };
+                }
             }
             Err(_) => prior_ok.push(false),
         }
@@ -202,7 +207,9 @@ pub fn eval(c: &Case, ctx: &Ctx) -> CaseInfo {
         match guarded(1_000_000, move || state_level(&c2, swap)) {
             Guarded::Ok(r) => {
                 let tag = if swap { "unify(v,u)" } else { "unify(u,v)" };
-                if r.prior_ok != ref_priors {
+                if r.cyclic {
+                    info.fail("C01:cyclic-substitution", format!("{}\n  {}: the substitution is cyclic after a successful unification", desc, tag));
+                } else if r.prior_ok != ref_priors {
                     info.fail("C01:prior-success-differs", format!("{}\n  {}: prior successes impl {:?} vs reference {:?}", desc, tag, r.prior_ok, ref_priors));
                 } else if r.ok != ref_img.is_some() {
                     info.fail(
@@ -225,6 +232,11 @@ pub fn eval(c: &Case, ctx: &Ctx) -> CaseInfo {
             Guarded::Panic(p) => info.fail(format!("C01:panic:{}", p.key()), format!("{}\n  panicked: {} at {}", desc, p.message, p.location)),
             Guarded::Budget(_) => {}
         }
+    }
+    if info.failure.is_some() {
+        // do not run the query on a case whose substitution may be cyclic: reification would
+        // recurse without bound and take the whole process down instead of reporting
+        return info;
     }
     // (b) query level
     let mut body: Vec<Goal> = c.priors.iter().map(|(a, b)| Goal::Eq(a.clone(), b.clone())).collect();
@@ -303,6 +315,9 @@ fn run_family(bytes: &[u8], ctx: &Ctx) -> CaseInfo {
     let mut s = Source::new(bytes);
     let cfg = TermCfg::all_literals((0..NV as VarId).collect());
     let c = decode(&mut s, &cfg);
+    if std::env::var("PVH_SHOW").is_ok() {
+        eprintln!("SHOW {}", show_case(&c));
+    }
     eval(&c, ctx)
 }
 
@@ -313,6 +328,9 @@ fn run_lists(bytes: &[u8], ctx: &Ctx) -> CaseInfo {
     cfg.kinds = vec![Kind::Pair, Kind::Node];
     cfg.max_depth = 3;
     let c = decode(&mut s, &cfg);
+    if std::env::var("PVH_SHOW").is_ok() {
+        eprintln!("SHOW {}", show_case(&c));
+    }
     eval(&c, ctx)
 }
 
